@@ -137,6 +137,206 @@ def res_to_coq(o, r, P):
     return "RUnit"
 
 
+
+# ---- reference map in Python: the implementation-only oracle reads the
+# ---- statement directly off the observed results of each store
+
+def _jint(s, i):
+    if i < len(s) and s[i] == 0x30:
+        return i + 1
+    if i < len(s) and 0x31 <= s[i] <= 0x39:
+        i += 1
+        while i < len(s) and 0x30 <= s[i] <= 0x39:
+            i += 1
+        return i
+    return None
+
+
+def _jstr(s, i):
+    while i < len(s):
+        c = s[i]
+        if c == 0x22:
+            return i + 1
+        if c < 0x20 or c == 0x5c:
+            return None
+        i += 1
+    return None
+
+
+def _jval(s, i, depth=0):
+    if depth > 200 or i >= len(s):
+        return None
+    c = s[i]
+    if c == 0x22:
+        return _jstr(s, i + 1)
+    for lit in (b"true", b"false", b"null"):
+        if s[i:i + len(lit)] == lit:
+            return i + len(lit)
+    if c == 0x5b:
+        if s[i + 1:i + 2] == b"]":
+            return i + 2
+        i += 1
+        while True:
+            i = _jval(s, i, depth + 1)
+            if i is None or i >= len(s):
+                return None
+            if s[i] == 0x2c:
+                i += 1
+                continue
+            return i + 1 if s[i] == 0x5d else None
+    if c == 0x7b:
+        if s[i + 1:i + 2] == b"}":
+            return i + 2
+        i += 1
+        while True:
+            if i >= len(s) or s[i] != 0x22:
+                return None
+            i = _jstr(s, i + 1)
+            if i is None or i >= len(s) or s[i] != 0x3a:
+                return None
+            i = _jval(s, i + 1, depth + 1)
+            if i is None or i >= len(s):
+                return None
+            if s[i] == 0x2c:
+                i += 1
+                continue
+            return i + 1 if s[i] == 0x7d else None
+    if c == 0x2d:
+        return _jint(s, i + 1)
+    return _jint(s, i)
+
+
+def json_ok(b):
+    return _jval(b, 0) == len(b)
+
+
+def _incr(cur):
+    if not cur or not cur.isdigit():
+        return None
+    ds = list(cur)
+    i = len(ds) - 1
+    while i >= 0:
+        if ds[i] == 0x39:
+            ds[i] = 0x30
+            i -= 1
+            continue
+        ds[i] += 1
+        return bytes(ds)
+    return b"1" + bytes(ds)
+
+
+def reference(ops, ordered, hk):
+    """Expected projected results of a history on one store."""
+    m = {}
+    out = []
+    for o in ops:
+        t = o["op"]
+        k = bytes.fromhex(o.get("k", ""))
+        c = bytes.fromhex(o.get("c", ""))
+        v = bytes.fromhex(o.get("v", ""))
+        keyed = t not in ("count", "clear") + WALKS
+        if keyed:
+            if ordered:
+                if len(k) > 255:
+                    out.append({"e": "key_too_long"})
+                    continue
+                mk = k
+            else:
+                mk = bytes.fromhex(hk[o.get("k", "")])
+        cur = m.get(mk) if keyed else None
+        r = {"e": "ok"}
+        if t in ("add", "addclass"):
+            if cur is not None:
+                r = {"e": "exists"}
+            else:
+                m[mk] = (c if t == "addclass" else b"", v)
+        elif t == "setclass":
+            if cur is None:
+                r = {"e": "not_found"}
+            else:
+                m[mk] = (c, cur[1])
+        elif t == "remove":
+            if cur is None:
+                r = {"e": "not_found"}
+            else:
+                del m[mk]
+        elif t == "getbytes":
+            r = {"e": "not_found"} if cur is None else {"e": "ok", "b": cur[1].hex()}
+        elif t == "get":
+            if cur is None:
+                r = {"e": "not_found"}
+            elif not json_ok(cur[1]):
+                r = {"e": "decode"}
+            else:
+                r = {"e": "ok", "b": cur[1].hex()}
+        elif t == "has":
+            r = {"e": "ok", "has": cur is not None}
+        elif t == "emplace":
+            if cur is None:
+                m[mk] = (b"", v)
+        elif t == "replace":
+            m[mk] = (cur[0] if cur is not None else b"", v)
+        elif t == "append":
+            m[mk] = (cur[0], cur[1] + v) if cur is not None else (b"", v)
+        elif t in ("setbytes", "set"):
+            if cur is None:
+                r = {"e": "not_found"}
+            else:
+                m[mk] = (cur[0], v)
+        elif t == "mutate":
+            if cur is None:
+                r = {"e": "not_found"}
+            elif not json_ok(cur[1]):
+                r = {"e": "decode"}
+            elif o["m"] == "ok":
+                m[mk] = (cur[0], v)
+            elif o["m"] == "error":
+                r = {"e": "user"}
+            elif o["m"] == "incr":
+                nv = _incr(cur[1])
+                if nv is None:
+                    r = {"e": "user"}
+                else:
+                    m[mk] = (cur[0], nv)
+        elif t == "count":
+            r = {"e": "ok", "n": len(m)}
+        elif t == "clear":
+            m = {}
+        elif t in WALKS:
+            if t in ("walkpartial", "walkpartialclass") and not ordered:
+                out.append({"e": "unordered"})
+                continue
+            items = sorted(m.items())
+            if t in ("walkclass", "walkpartialclass"):
+                items = [it for it in items if it[1][0] == c]
+            if t in ("walkpartial", "walkpartialclass"):
+                if o.get("desc"):
+                    items.reverse()
+                off, n = o.get("off", 0), o.get("n", 0)
+                items = items[off:off + n]
+            w = []
+            e = "ok"
+            for _, (cl, val) in items:
+                if not json_ok(val):
+                    e = "decode"
+                    break
+                w.append([cl.hex(), val.hex()])
+            r = {"e": e}
+            if w:
+                r["w"] = w
+        out.append(r)
+    return out
+
+
+def norm(r):
+    d = {k: v for k, v in r.items() if k != "msg"}
+    if "w" in d:
+        d["w"] = [list(x) for x in d["w"]]
+        if not d["w"]:
+            del d["w"]
+    return d
+
+
 def strip(rs):
     return [{k: v for k, v in r.items() if k != "msg"} for r in rs]
 
@@ -172,6 +372,22 @@ def impl_oracle(c):
                          "observed": {s: o2[s] for s in ("mo", "mu", "so", "su")},
                          "full_history": c["ops"] if c.get("min") else None}))
             break
+    if not out:
+        # against the reference map (catches what both backends share: the KV wrapper)
+        for s in ("mo", "mu", "so", "su"):
+            exp = reference(c["ops"], s[1] == "o", c["hk"])
+            got = [norm(r) for r in obs[s]]
+            j = next((i for i in range(len(exp)) if norm(exp[i]) != got[i]), None)
+            if j is not None:
+                o = c["ops"][j]
+                out.append(("impl:%s!=reference:%s%s:%s/%s" % ({"m": "mem", "s": "sqlite"}[s[0]], o["op"],
+                                                              ":" + o["m"] if o["op"] == "mutate" else "",
+                                                              got[j]["e"], exp[j]["e"]),
+                            "call %d (%s) on store %s returned %s; the reference map says %s"
+                            % (j, o["op"], s, json.dumps(got[j]), json.dumps(exp[j])),
+                            {"history": c["ops"][:j + 1], "store": s, "observed": obs[s][:j + 1],
+                             "expected": exp[:j + 1]}))
+                break
     for s in ("mo", "mu", "so", "su"):
         for i, r in enumerate(obs[s]):
             if r["e"] in ("other", "panic"):
